@@ -457,11 +457,10 @@ example : (Src.struct [0, 2] []).listed c16Schema (fun _ => 1) 1 = false ∧ (Sr
 /-- REGENERATED FACT (finisher_api.go): none of the finishers assigns a field of — or calls a mutating method
     on — the Statement of its RECEIVER: every such write goes through `db.getInstance()` / `db.Session(…)` /
     `db.Limit(…)`, i.e. through a statement derived for this call. (Any field: conditions, attrs, assigns, Dest,
-    Selects …) -/
+    Selects …; the property's finishers and the ones they call: Find, Create, Updates.) -/
 theorem C16_finishers_leave_receiver :
     ∀ w ∈ Gen.finisherStmtWrites,
-      w.fn ∈ ["DB.Save", "DB.Create", "DB.FirstOrInit", "DB.FirstOrCreate", "DB.Find", "DB.First", "DB.Take",
-        "DB.Last", "DB.Update", "DB.Updates", "DB.Delete", "DB.Count", "DB.Pluck"] → w.recv = false := by decide
+      w.fn ∈ ["DB.Save", "DB.Create", "DB.FirstOrInit", "DB.FirstOrCreate", "DB.Find", "DB.Updates"] → w.recv = false := by decide
 
 /-- regenerated fact (since `fix:` 1b48a88): `clone()` carries clauses, attrs and assigns over -/
 theorem C16_gen_clone_full : genCfg.full := ⟨by decide, by decide, by decide⟩
